@@ -175,7 +175,7 @@ package node
 
 //@ func (md MaxDepth) CheckContainerPreConstraints(r *ChildRequest) (bool, error)
 //@   mode int
-//@   property C07
+//@   property C07 C08
 //@   requires r != nil && md.MaxDepth >= 1 && (r.Target == nil ==> r.Selection != nil && wfPath(r.Selection.Path))
 //@   assigns nothing
 //@   ensures result1 == nil
@@ -194,7 +194,7 @@ package node
 // fc.max-node-count: the count persists across requests; the request that exceeds the limit is an error
 //@ func (self *MaxNode) CheckContainerPreConstraints(r *ChildRequest) (bool, error)
 //@   mode int
-//@   property C07
+//@   property C07 C08
 //@   requires self != nil && r != nil && self.Count < 9223372036854775807
 //@   assigns self.Count
 //@   ensures r.Target != nil ==> result0 && result1 == nil && self.Count == old(self.Count)
@@ -211,7 +211,7 @@ package node
 // list ends before EndRow (half-open window [StartRow, EndRow), -1 = unbounded); other lists are untouched
 //@ func (self *ListRange) CheckListPreConstraints(r *ListRequest) (bool, error)
 //@   mode int
-//@   property C07
+//@   property C07 C08
 //@   requires self != nil && r != nil && self.Selector != nil && (r.Target == nil ==> r.Selection != nil)
 //@   requires -9223372036854775808 <= self.StartRow
 //@   assigns r.StartRow64, r.StartRow, r.Row64, r.Row
@@ -228,7 +228,7 @@ package node
 
 //@ func (self ContentConstraint) CheckContainerPreConstraints(r *ChildRequest) (bool, error)
 //@   mode int
-//@   property C07
+//@   property C07 C08
 //@   requires r != nil && r.Meta != nil
 //@   assigns nothing
 //@   ensures result1 == nil
@@ -247,7 +247,7 @@ package node
 // fields / fc.xfields
 //@ func (self *FieldsMatcher) CheckContainerPreConstraints(r *ChildRequest) (bool, error)
 //@   mode int
-//@   property C07
+//@   property C07 C08
 //@   requires self != nil && r != nil && self.selector != nil
 //@   assigns nothing
 //@   ensures result1 == nil
